@@ -32,10 +32,14 @@ func (w *World) bootRing() bool {
 type flakyKV struct {
 	spec.KV
 	failList *bool
+	failWith *error // which error the failing listing returns (nil: a plain error)
 }
 
 func (f flakyKV) PrefixList(ctx context.Context, p []byte) ([][]byte, error) {
 	if *f.failList {
+		if f.failWith != nil && *f.failWith != nil {
+			return nil, *f.failWith
+		}
 		return nil, errors.New("scripted storage failure")
 	}
 	return f.KV.PrefixList(ctx, p)
@@ -67,10 +71,11 @@ func (w *World) checkC48() {
 	r := w.r
 	zone := "acme.example.com"
 	fail := false
+	var failWith error
 	kvFor := func(i int) spec.KV {
 		return spec.WrapRetryKV(w.cluster.Slots[i%len(w.cluster.Slots)].Node, 100*time.Millisecond, 4)
 	}
-	d := repoacme.NewDNS(w.ctx, zap.NewNop(), flakyKV{KV: kvFor(0), failList: &fail}, "admin@example.com", zone, map[string][]string{"ns1.acme.example.com": {"192.0.2.1", "2001:db8::1"}})
+	d := repoacme.NewDNS(w.ctx, zap.NewNop(), flakyKV{KV: kvFor(0), failList: &fail, failWith: &failWith}, "admin@example.com", zone, map[string][]string{"ns1.acme.example.com": {"192.0.2.1", "2001:db8::1"}})
 	query := func(name string, qtype uint16) *dns.Msg {
 		m := new(dns.Msg)
 		m.SetQuestion(name, qtype)
@@ -180,11 +185,15 @@ func (w *World) checkC48() {
 	if m := query("managed.not"+zone+".", dns.TypeTXT); len(m.Answer) != 0 {
 		w.res.Violate("C48", "look-alike-zone", "a look-alike zone got %d answers", len(m.Answer))
 	}
-	fail = true
-	if m := query("managed."+zone+".", dns.TypeTXT); m.Rcode != dns.RcodeServerFailure {
-		w.res.Violate("C48", "storage-failure", "storage failure answered with rcode %d", m.Rcode)
+	// whatever kind of error the storage keeps answering with - plain, a retryable DHT error, a
+	// non-retryable one, a deadline - the query fails; it is never answered "no such name"
+	for _, fe := range []error{nil, spec.ErrKVStaleOwnership, spec.ErrKVPendingTransfer, spec.ErrNodeGone, context.DeadlineExceeded, fmt.Errorf("wrapped: %w", spec.ErrKVStaleOwnership)} {
+		fail, failWith = true, fe
+		if m := query("managed."+zone+".", dns.TypeTXT); m.Rcode != dns.RcodeServerFailure {
+			w.res.Violate("C48", "storage-failure", "storage that keeps failing with %v was answered with rcode %d (want server failure)", fe, m.Rcode)
+		}
+		fail, failWith = false, nil
 	}
-	fail = false
 	simrt.Probe("c48-checked")
 }
 
